@@ -2,6 +2,7 @@
 //! implementation's generator matrix and entry-by-entry comparison with the closed form
 //! computed by gfref (own field arithmetic, no FFT), plus the ancestor crate as second oracle.
 use crate::core::*;
+use crate::with_engine;
 use crate::json::J;
 use crate::kv::*;
 use crate::report::*;
@@ -104,12 +105,54 @@ fn check_rs16(eng: &str, k: usize, r: usize, bytes: usize, seed: u64) -> Result<
     Ok((r * bytes) as u64)
 }
 
+/// mode bytes: dense data of an arbitrary even shard size (short final block, long shards): every recovery
+/// byte against G*data with the documented byte placement; two rounds on one (soiled) encoder
+fn check_bytes(refm: &RefModel, eng: &str, high: bool, k: usize, r: usize, bytes: usize, soil: u64, seed: u64) -> Result<u64, (String, String)> {
+    let kind = if high { Kind::High } else { Kind::Low };
+    let mut n = 0u64;
+    let res = guard(|| {
+        with_engine!(eng, E => {
+            let mut enc = make_encoder::<E>(kind, k, r, bytes, if soil == 0 { None } else { Some(soil) }).map_err(|e| format!("Err({e:?})"))?;
+            let mut out: Vec<(Vec<Vec<u8>>, Vec<Vec<u8>>)> = Vec::new();
+            for round in 0..2u64 {
+                let originals = data_dense(k, bytes, seed ^ (round * 0x9e37) ^ bytes as u64);
+                for o in &originals {
+                    enc.add(o).map_err(|e| format!("Err({e:?})"))?;
+                }
+                let rec: Vec<Vec<u8>> = enc.encode().map_err(|e| format!("Err({e:?})"))?.recovery_iter().map(|s| s.to_vec()).collect();
+                out.push((originals, rec));
+            }
+            Ok::<_, String>(out)
+        })
+    });
+    let rounds = match res {
+        Ok(Ok(v)) => v,
+        Ok(Err(e)) => return Err(("encode Ok".into(), e)),
+        Err(p) => return Err(("no panic".into(), format!("PANIC: {p}"))),
+    };
+    for (ri, (originals, rec)) in rounds.iter().enumerate() {
+        let want = refm.encode(high, k, r, originals);
+        if rec.len() != r {
+            return Err((format!("{r} recovery shards"), format!("{}", rec.len())));
+        }
+        for j in 0..r {
+            if rec[j] != want[j] {
+                let pos = rec[j].iter().zip(&want[j]).position(|(a, b)| a != b);
+                return Err((format!("round {ri}: recovery[{j}] of {bytes}-byte shards = G*data (fnv {:016x})", fnv(&want[j])), format!("fnv {:016x}, length {}, first difference at byte {pos:?}", fnv(&rec[j]), rec[j].len())));
+            }
+            n += bytes as u64 / 2;
+        }
+    }
+    Ok(n)
+}
+
 fn run_case(refm: &RefModel, kv: &Kv) -> Result<u64, (String, String)> {
     let eng = kv.str("eng");
     let (k, r) = (kv.usize("k"), kv.usize("r"));
     match kv.str("mode") {
         "basis" => check_basis(refm, eng, kv.str("rate") == "high", k, r, kv.u64("soil")),
         "unit" => check_unit(refm, eng, kv.str("rate") == "high", k, r, kv.usize("cols")),
+        "bytes" => check_bytes(refm, eng, kv.str("rate") == "high", k, r, kv.usize("bytes"), kv.u64("soil"), kv.u64("seed")),
         "rs16" => check_rs16(eng, k, r, kv.usize("bytes"), kv.u64("seed")),
         m => panic!("mode {m}"),
     }
@@ -125,7 +168,7 @@ pub fn run(ctx: &Ctx, rep: &mut Report) {
     let refm = RefModel::new();
     let seed = ctx.seed;
     let soil = seed | 1;
-    rep.rule = "case = (mode, engine, rate, (k,r)); mode basis: all k*r*16 products G[j][i]*2^b read back from one encode of basis-in-slots data; mode unit: whole generator matrices of large configurations, one column per slot; mode rs16: byte equality with reed-solomon-16 0.1.0; non-trivial = configuration with more than one chunk on the transformed side or k,r >= 2; distinct by (mode,engine,rate,k,r)".into();
+    rep.rule = "case = (mode, engine, rate, (k,r)); mode bytes: every recovery byte of dense shards of arbitrary even size (short final block, long shards; two rounds on one encoder) against G*data with the documented byte placement; mode basis: all k*r*16 products G[j][i]*2^b read back from one encode of basis-in-slots data; mode unit: whole generator matrices of large configurations, one column per slot; mode rs16: byte equality with reed-solomon-16 0.1.0; non-trivial = configuration with more than one chunk on the transformed side or k,r >= 2; distinct by (mode,engine,rate,k,r)".into();
     rep.assume("oracle = closed form of the property statement evaluated by gfref (carry-less multiplication from 0x1002D and the Cantor basis); its MDS property is checked by brute force for small (k,r) in this run");
 
     // oracle self-validation
@@ -176,6 +219,37 @@ pub fn run(ctx: &Ctx, rep: &mut Report) {
         }
     }
     rep.bound("rs16_cfg", J::s(format!("[1..{rs_max}]^2, 64-byte shards (192 bytes when (k+r)%3==0), default engine, dense data")));
+    // bytes: shard sizes with a short final block and long shards
+    let bmax = if ctx.thorough() { 9 } else { 6 };
+    let small_sizes: Vec<usize> = if ctx.thorough() { vec![2, 30, 34, 36, 62, 66, 98, 100, 126, 130, 190, 194, 254] } else { vec![2, 34, 62, 100, 126, 194] };
+    let long_sizes: Vec<usize> = if ctx.thorough() { vec![4096 + 64, 4096 + 66, 8192 + 64, 8192 + 126, 16384 + 64 + 2, 65536 + 128 + 34] } else { vec![4096 + 66, 8192 + 126, 16384 + 64 + 2] };
+    for k in 1..=bmax {
+        for r in 1..=bmax {
+            for rate in ["high", "low"] {
+                for (bi, &bytes) in small_sizes.iter().enumerate() {
+                    for eng in engines_all() {
+                        if eng == "default" && (k + r + bi) % 3 != 0 {
+                            continue;
+                        }
+                        cases.push(Kv::new().with("mode", "bytes").with("eng", eng).with("rate", rate).with("k", k).with("r", r).with("bytes", bytes).with("soil", if (k + r + bi) % 2 == 0 { soil } else { 0 }).with("seed", seed));
+                    }
+                }
+            }
+        }
+    }
+    for (k, r) in [(1usize, 1usize), (2, 3), (3, 2), (5, 3), (3, 5), (4, 4), (17, 5), (5, 17)] {
+        for rate in ["high", "low"] {
+            for &bytes in &long_sizes {
+                for eng in engines_all() {
+                    if (eng == "naive" || eng == "neonemu") && k + r > 8 {
+                        continue;
+                    }
+                    cases.push(Kv::new().with("mode", "bytes").with("eng", eng).with("rate", rate).with("k", k).with("r", r).with("bytes", bytes).with("soil", soil).with("seed", seed));
+                }
+            }
+        }
+    }
+    rep.bound("bytes_cfg", J::s(format!("[1..{bmax}]^2 x {{high,low}} x every engine x shard sizes {small_sizes:?}; 8 configurations x every engine x long shards {long_sizes:?}; two rounds per encoder, dense data, every recovery byte")));
     // unit (large)
     let big: Vec<(usize, usize, usize)> = if ctx.thorough() {
         vec![
@@ -240,7 +314,7 @@ pub fn run(ctx: &Ctx, rep: &mut Report) {
                 rep.transitions += (k + 1) as u64;
             }
             Err((exp, obs)) => rep.violation(Violation {
-                key: format!("{}-{}-{}-k{}r{}", kv.str("mode"), kv.opt("rate").unwrap_or("def"), kv.str("eng"), k, r),
+                key: format!("{}-{}-{}-k{}r{}{}", kv.str("mode"), kv.opt("rate").unwrap_or("def"), kv.str("eng"), k, r, kv.opt("bytes").map(|b| format!("-b{b}")).unwrap_or_default()),
                 case: kv.dump(),
                 expected: exp,
                 observed: obs,
